@@ -46,6 +46,8 @@ Grey(r) == r.m = "PROPFIND" /\ r.ctype \in XmlCT /\ r.body \in {"none", "emptyxm
 Expect(r) == IF Malformed(r) THEN "4xx" ELSE IF Grey(r) THEN "not5xx" ELSE "any"
 
 OutcomeOK(want, o) == /\ ~o.panic /\ o.st >= 100 /\ o.st <= 599
+                      \* a complete response: a 207 carries a well-formed document
+                      /\ o.bodyok
                       /\ (want = "4xx" => o.st >= 400 /\ o.st <= 499 /\ o.mut = 0)
                       /\ (want = "not5xx" => o.st <= 499 /\ o.mut = 0)
                       \* byte-level edits of a valid document or object: it either stays acceptable (and may then be stored) or is
